@@ -154,6 +154,31 @@ func TestC02(t *testing.T) {
 			}
 			c.Ev.MarkExhaustive("every numeric operand producer x eight concatenation forms against the number's own printed form")
 		})
+		// short decimals: the operands people write.  Every ordered pair of 40 one- and two-decimal numbers
+		// (and a few integers) under the arithmetic and comparison operators, against the exact reference
+		// (% and / by exact rational arithmetic, then rounded once)
+		c.Sub("decimal-pairs", func(s *Sub) {
+			var k int64
+			vals := []string{"0.1", "0.2", "0.3", "0.4", "0.5", "0.6", "0.7", "0.8", "0.9", "1.1", "1.5", "1.74", "2.5", "3.3", "7.7", "9.9", "10.1", "79.2", "67.86", "0.01", "0.05", "0.25", "0.75", "99.99", "100.1", "0.001",
+				"1", "2", "3", "7", "10", "100", "1000", "(-0.1)", "(-0.7)", "(-1.74)", "(-67.86)", "(-3)", "(-10)", "1e0"}
+			vals = vals[:len(vals)-1]
+			ops := []string{"%", "/", "*", "+", "-", "<", "<=", "==", "**"}
+			for _, op := range ops {
+				for _, l := range vals {
+					k++
+					if !c.Mine(k) {
+						continue
+					}
+					var b strings.Builder
+					b.WriteString(c02Prelude)
+					for _, r := range vals {
+						b.WriteString(bn.KwPrint + " " + l + " " + op + " " + r + ";\n")
+					}
+					c.c02Program(s, "decimal-pairs", b.String(), true, true, "op "+op, "decimal-pairs")
+				}
+			}
+			c.Ev.MarkExhaustive("every ordered pair of 39 short decimals and small integers under % / * + - < <= == **")
+		})
 		c.Sub("matrix-unary", func(s *Sub) {
 			if c.Shard != 0 {
 				return
